@@ -89,6 +89,22 @@ func modA(k int32) []byte {
 	m.Exports = append(m.Exports, wasmb.Export{Name: "mem", Kind: wasmb.KindMemory, Idx: 0})
 	m.Datas = []wasmb.Data{{Passive: true, Bytes: []byte{byte(k), 0, 0, 0}}}
 	m.DataCount = true
+	// a MUTABLE funcref global, null until setm() stores inc in it: an importer of it holds nothing of this
+	// module at import time
+	m.Globals = append(m.Globals, wasmb.Global{Type: wasmb.FuncRef, Mut: true, Init: wasmb.ConstRefNull(wasmb.FuncRef)})
+	m.Exports = append(m.Exports, wasmb.Export{Name: "mref", Kind: wasmb.KindGlobal, Idx: 1})
+	m.AddFunc(nil, nil, nil, (&wasmb.Code{}).RefFunc(inc).GlobalSet(1).B, "setm")
+	return m.Encode()
+}
+
+// modN imports nothing but A's mutable funcref global (null when imported).
+func modN() []byte {
+	m := &wasmb.Module{}
+	i32 := []wasmb.ValType{wasmb.I32}
+	m.Imports = append(m.Imports, wasmb.Import{Module: "a", Name: "mref", Kind: wasmb.KindGlobal, GlobalType: wasmb.FuncRef, GlobalMut: true})
+	t := m.AddType(i32, i32)
+	m.Tables = []wasmb.Table{{Elem: wasmb.FuncRef, Lim: wasmb.Limits{Min: 2}}}
+	m.AddFunc(i32, i32, nil, (&wasmb.Code{}).I32Const(1).GlobalGet(0).TableSet(0).LocalGet(0).I32Const(1).CallIndirect(t, 0).B, "viamref")
 	return m.Encode()
 }
 
@@ -448,6 +464,16 @@ func (c09) Run(t *tape.Tape, cfg sim.Config) (res sim.Result) {
 		r.followUp = []int{0, 0, 600, 6, 0, 6, 201}
 		res.Stat("probe.focus_funcref_global", 1)
 	}
+	if len(r.forceKinds) == 0 && t.Chance(1, 8) {
+		// focus: an importer of nothing but A's MUTABLE funcref global, null when imported; A stores a
+		// reference in it, then A is dropped and collected
+		r.forceKinds = []byte{'A', 'N'}
+		r.followUp = []int{0, 0, 700, 600, 6, 0, 6, 201}
+		if t.Chance(1, 2) {
+			r.followUp = []int{0, 0, 700, 201, 600, 6, 0, 6, 201}
+		}
+		res.Stat("probe.focus_mutable_funcref_global_set_after_import", 1)
+	}
 	if len(r.forceKinds) == 0 && t.Chance(1, 6) {
 		// focus: a glue module copies A's function into the second owner's table; then the glue module and
 		// A are dropped, collected, something else is compiled, and the second owner calls the entry
@@ -510,6 +536,8 @@ func (r *runner) instantiateOn(s *side, kind byte, k int32, via int, rtIdx int) 
 		bin = modEF(k, 1+k%3, true)
 	case 'G':
 		bin = modG()
+	case 'N':
+		bin = modN()
 	case 'H':
 		bin = modH()
 	case 'T':
@@ -666,6 +694,13 @@ func (r *runner) step(shared bool) {
 		k = r.followUp[0]
 		r.followUp = r.followUp[1:]
 	}
+	if k == 700 {
+		// forced: A stores a reference to its function in its mutable funcref global
+		if r.curA >= 0 && r.curA != r.real.pausedInst {
+			r.compareCall(fmt.Sprintf("call #%d A.setm() [the mutable funcref global now holds A.inc]", r.curA), r.curA, "setm")
+		}
+		return
+	}
 	if k >= 600 {
 		// forced: close and drop instance k-600
 		if i := k - 600; i < len(r.real.insts) && !r.real.insts[i].dropped && i != r.real.pausedInst {
@@ -751,6 +786,8 @@ func (r *runner) step(shared bool) {
 			switch in := r.real.insts[j]; in.kind {
 			case 'G':
 				r.compareCall(fmt.Sprintf("call #%d G.viaglob(%d) [its definer #%d was dropped and collected]", j, x, in.definer), j, "viaglob", x)
+			case 'N':
+				r.compareCall(fmt.Sprintf("call #%d N.viamref(%d) [imports only the mutable funcref global of #%d, null when imported and set afterwards; #%d was dropped and collected]", j, x, in.definer, in.definer), j, "viamref", x)
 			case 'H':
 				r.compareCall(fmt.Sprintf("call #%d H.viahost(%d) [its host module #%d was dropped and collected]", j, x, in.definer), j, "viahost", x)
 			}
@@ -782,7 +819,7 @@ func (r *runner) step(shared bool) {
 		if kind == 'A' && r.curA >= 0 {
 			kind = 'B'
 		}
-		if (kind == 'B' || kind == 'D' || kind == 'E' || kind == 'G' || kind == 'T') && r.curA < 0 {
+		if (kind == 'B' || kind == 'D' || kind == 'E' || kind == 'G' || kind == 'N' || kind == 'T') && r.curA < 0 {
 			kind = 'A'
 		}
 		if kind == 'H' && r.curM < 0 {
@@ -866,7 +903,7 @@ func (r *runner) step(shared bool) {
 			}
 			return
 		}
-		if kind == 'B' || kind == 'D' || kind == 'E' || kind == 'G' || kind == 'T' {
+		if kind == 'B' || kind == 'D' || kind == 'E' || kind == 'G' || kind == 'N' || kind == 'T' {
 			ri.definer, ti.definer = r.curA, r.curA
 		}
 		if kind == 'H' {
@@ -1062,7 +1099,7 @@ func (r *runner) step(shared bool) {
 			// a definer is gone: collect, let another compilation happen (the engine's bookkeeping of compiled
 			// code moves), collect again, then use what imports from it
 			for j, o := range r.real.insts {
-				if (o.kind == 'G' || o.kind == 'H') && o.definer == i && !o.closed && t.Chance(2, 3) {
+				if (o.kind == 'G' || o.kind == 'H' || o.kind == 'N') && o.definer == i && !o.closed && t.Chance(2, 3) {
 					r.followUp = []int{6, 0, 6, 200 + j}
 					break
 				}
